@@ -144,7 +144,12 @@ func genTree(t *rapid.T) *gtree {
 
 // tails are the places outside the root (relative to the root's parent) that
 // a climbing name aims at, plus new names there.
-var tailsNext = []string{"canary", "sibling", "sibling/sfile", "sibling/sdir/deep", "sibling/sdir", "zlink", "newx", "sibling/newy", exportName, exportName + "/a", ""}
+var tailsNext = []string{"canary", "sibling", "sibling/sfile", "sibling/sdir/deep", "sibling/sdir", "zlink", "newx", "sibling/newy", exportName, exportName + "/a", "",
+	exportName + "-private", exportName + "-private/pfile", exportName + "-private/newp", exportName + "2/x", exportName + "2/newq", exportName + ".bak/b", exportName + ".bak"}
+
+// rootExt are the places in neighbours whose directory name starts with the
+// root's own directory name.
+var rootExt = []string{"-private", "-private/pfile", "-private/newp", "-private/pfile/..", "2", "2/x", "2/newq", ".bak/b", ".bak/newr", "-private/../" + exportName + "2/x"}
 var tailsAbove = []string{"top-canary", upName, upName + "/canary", upName + "/sibling/sfile", "newtop", upName + "/" + exportName, ""}
 
 func ups(k int) string { return strings.Repeat("../", k) }
@@ -153,11 +158,16 @@ func ups(k int) string { return strings.Repeat("../", k) }
 // directory the server will resolve it in. level bounds the recursion.
 func hostileName(t *rapid.T, depth, level int) (string, string) {
 	real := func() string { return rapid.SampledFrom(plainNames).Draw(t, "real") }
-	shape := rapid.IntRange(0, 15).Draw(t, "shape")
-	if level >= 2 && shape >= 12 {
+	shape := rapid.IntRange(0, 17).Draw(t, "shape")
+	if level >= 2 && shape >= 12 && shape <= 15 {
 		shape -= 8
 	}
 	switch shape {
+	case 16: // a neighbour whose name extends the root's name
+		return ups(depth+1) + exportName + rapid.SampledFrom(rootExt).Draw(t, "ext"), "root-name-extended"
+	case 17: // the same relative to the root (rename targets starting with '/')
+		pre := rapid.SampledFrom([]string{"/../", "/a/../../", "/./../", "//../"}).Draw(t, "pre")
+		return pre + exportName + rapid.SampledFrom(rootExt).Draw(t, "ext"), "root-name-extended-abs"
 	case 0:
 		return "..", "dotdot"
 	case 1:
@@ -316,8 +326,22 @@ func genProbe(t *rapid.T, g *gtree, vec string, plain bool) Probe {
 	case "create":
 		dir := rapid.SampledFrom(g.dirs()).Draw(t, "base")
 		p.Base, p.Depth = split(dir), depthOf(dir)
-		p.Kind = rapid.SampledFrom([]string{"file", "dir", "symlink", "link"}).Draw(t, "ckind")
+		p.Kind = rapid.SampledFrom([]string{"file", "file", "dir", "dir", "symlink", "link", "pipe", "pipe", "device", "socket"}).Draw(t, "ckind")
+		special := p.Kind == "pipe" || p.Kind == "device" || p.Kind == "socket"
+		if p.Kind != "dir" && (special || rapid.Bool().Draw(t, "drawmode")) {
+			// (an existing directory can only be opened OREAD)
+			m := rapid.SampledFrom([]uint8{oread, oread, oread, owrite, ordwr, oread | otrunc}).Draw(t, "omode")
+			p.OMode = &m
+		}
 		n, sh := name(p.Depth)
+		dotOneIn := 4
+		if special {
+			dotOneIn = 2
+		}
+		if rapid.IntRange(1, dotOneIn).Draw(t, "dotname") == 1 {
+			// names that exist in every directory
+			n, sh = rapid.SampledFrom([]string{"..", ".", ""}).Draw(t, "dn"), "dot-entry"
+		}
 		p.Names, p.Shape = []string{n}, sh
 		switch p.Kind {
 		case "symlink":
@@ -337,8 +361,8 @@ func genProbe(t *rapid.T, g *gtree, vec string, plain bool) Probe {
 		}
 		if !hostile(n) && n != "." && n != "" {
 			// generator's model: the object may now exist
-			k := map[string]string{"file": "f", "dir": "d", "symlink": "l", "link": "f"}[p.Kind]
-			if _, exists := g.kind[join(dir, n)]; !exists {
+			k := map[string]string{"file": "f", "dir": "d", "symlink": "l", "link": "f", "socket": "f"}[p.Kind]
+			if _, exists := g.kind[join(dir, n)]; !exists && k != "" {
 				g.kind[join(dir, n)] = k
 			}
 		}
@@ -518,6 +542,9 @@ func enumNames(d int) []string {
 		}
 	}
 	out = append(out, ups(d+1)+exportName+"/f", ups(40)+"top-canary", ups(40)+upName+"/canary")
+	for _, x := range rootExt {
+		out = append(out, ups(d+1)+exportName+x, "/../"+exportName+x, "a/../"+ups(d+1)+exportName+x, "./"+ups(d+1)+exportName+x)
+	}
 	for _, tl := range []string{"canary", "sibling/sfile", "newx", upName + "/canary", "top-canary"} {
 		out = append(out, "/../"+tl, "/../../"+tl, "a/../../"+tl, "a/b/../../../"+tl, "l/../../"+tl, "./../"+tl, "f/../../"+tl)
 	}
@@ -591,8 +618,16 @@ func TestEnumSingle(t *testing.T) {
 	// create: every kind at every depth
 	for _, b := range enumBases {
 		for _, n := range enumNames(len(b)) {
-			for _, k := range []string{"file", "dir", "symlink", "link"} {
+			for _, k := range []string{"file", "dir", "symlink", "link", "pipe", "socket", "device"} {
 				p := Probe{Vec: "create", Base: b, Depth: len(b), Names: []string{n}, Kind: k}
+				if k == "pipe" || k == "socket" || k == "device" {
+					// a directory can only be opened for reading
+					m := uint8(oread)
+					p.OMode = &m
+					if k != "pipe" && hostile(n) && n != ".." {
+						continue // these two arms are enumerated on the single-entry names only
+					}
+				}
 				if k == "symlink" {
 					p.Ext = "."
 				}
@@ -615,7 +650,7 @@ func TestEnumSingle(t *testing.T) {
 	}
 	runEnum(t, "enum-single", cases)
 	if !t.Failed() {
-		hx.Exhaustive(fmt.Sprintf("fixed 8-node tree, .u: every name of the finite list enumNames(depth) (%d..%d names: degenerate names, every '../' chain of 1..depth+2 levels with every outside tail, absolute jail paths, down-and-up through directories and inward symlinks) as attach aname, as single walk element from depth 0/1/2, as Tcreate name (file, dir, symlink, link) at depth 0/1/2 and as Twstat rename target of the root, files, directories and symlinks at depth 0/1/2, each followed by stat, open+read, open+write, wstat, remove: %d sessions",
+		hx.Exhaustive(fmt.Sprintf("fixed 8-node tree, .u: every name of the finite list enumNames(depth) (%d..%d names: degenerate names, every '../' chain of 1..depth+2 levels with every outside tail, absolute jail paths, down-and-up through directories and inward symlinks) as attach aname, as single walk element from depth 0/1/2, as Tcreate name (file, dir, symlink, link, named pipe opened OREAD; socket and device on the names without '/') at depth 0/1/2 and as Twstat rename target of the root, files, directories and symlinks at depth 0/1/2, each followed by stat, open+read, open+write, wstat, remove: %d sessions",
 			len(enumNames(0)), len(enumNames(2)), len(cases)))
 	}
 }
